@@ -201,6 +201,9 @@ Definition tbl2 (l : list (N * N)) : N -> N -> bool := fun ty f => pmem (ty, f) 
 (* no slot in which the parser stores a shared object is one the release goes on into *)
 Definition shared_not_descended (shared descend : list (N * N)) : bool :=
   forallb (fun e => negb (pmem e descend)) shared.
+(* of the slots that hold one shared object, a release goes on into at most one *)
+Definition shared_reached_once (groups : list (list (N * N))) (descend : list (N * N)) : bool :=
+  forallb (fun g => Nat.leb (length (filter (fun e => pmem e descend) g)) 1) groups.
 (* nesting depth of containers followed by a release (AST > statement > expression, with room) *)
 Definition own_depth : nat := 8.
 
